@@ -78,6 +78,7 @@ Failing(h, e, fl) ==
                    R  == IF a.op = "RefCoordinates"
                          THEN (IF R0.err THEN R0
                                ELSE CliOf("SubAlign", h[recv], Step(h, "SubAlign", recv, [start |-> R0.ret.start, len |-> R0.ret.len])))
+                         ELSE IF a.op = "Split" THEN CliSplit(h[recv], a.a)
                          ELSE CliOf(a.op, h[recv], R0) IN
           [errClass  |-> (e.kind = "err") = R.err,
            recvState |-> obs[recv] = h[recv],
